@@ -111,6 +111,8 @@ pub(crate) struct Chain {
     pub by_hash: HashMap<Byte32, u64>,
     /// mixed into every cellbase so that branches differ
     pub salt: u64,
+    /// milliseconds between the timestamps of consecutive blocks (default 10)
+    pub ts_step: u64,
     pub miner_lock: Script,
     /// if false, headers are not mined (Eaglesong world: "unmined twins")
     pub mine: bool,
@@ -131,6 +133,7 @@ impl Clone for Chain {
             tx_block: self.tx_block.clone(),
             by_hash: self.by_hash.clone(),
             salt: self.salt,
+            ts_step: self.ts_step,
             miner_lock: self.miner_lock.clone(),
             mine: self.mine,
             mmr: None,
@@ -166,6 +169,7 @@ impl Chain {
             tx_block: HashMap::new(),
             by_hash: HashMap::new(),
             salt: 0,
+            ts_step: 10,
             miner_lock: Script::default(),
             mine: true,
             mmr: None,
@@ -244,7 +248,7 @@ impl Chain {
             .number(n.pack())
             .epoch(epoch.pack())
             .compact_target(compact.pack())
-            .timestamp((BASE_TS + n * 10 + self.salt % 7).pack())
+            .timestamp((BASE_TS + n * self.ts_step + self.salt % 7).pack())
             .transaction(self.cellbase(n))
             .extension(Some(ext));
         for tx in txs {
